@@ -22,6 +22,8 @@ func init() {
 }
 
 func runC01(c *core.Ctx) {
+	c.Rule("ORD5L", "ordered emitters use Ascend; DeleteMax only under noRetractionsPossible and only while the tree holds more nodes than the limit")
+	checkOrderedEmitters(c)
 	c.Rule("EQNUM", "equality compares Int with Float numerically")
 	checkNumericEquality(c, "EQNUM")
 	c.Rule("CTEFRESH", "every reference to a common table expression gets fresh unique column names")
